@@ -226,6 +226,31 @@ Section Decision.
   Qed.
 End Decision.
 
+(* each long-running rpc is decided on ITS OWN annotation: two rpcs that share the response type and name different
+   metadata types get futures with the same result type and different metadata types, whatever their order *)
+Lemma lro_shared_response_distinct_metadata : forall files pkg m1 m2 oi1 oi2 r1 mt1 r2 mt2,
+  m_opinfo m1 = Some oi1 -> m_opinfo m2 = Some oi2 ->
+  oi_response oi1 = oi_response oi2 ->
+  decide files pkg m1 = Lro r1 mt1 -> decide files pkg m2 = Lro r2 mt2 ->
+  r1 = r2 /\
+  mt1 = resolve_lro files pkg (oi_metadata oi1) /\ mt2 = resolve_lro files pkg (oi_metadata oi2) /\
+  (resolve_lro files pkg (oi_metadata oi1) <> resolve_lro files pkg (oi_metadata oi2) -> mt1 <> mt2).
+Proof.
+  intros files pkg m1 m2 oi1 oi2 r1 mt1 r2 mt2 O1 O2 E D1 D2.
+  destruct (lro_accepted_sound files pkg m1 r1 mt1 D1) as [o1 [A1 [_ [_ [R1 [M1 _]]]]]].
+  destruct (lro_accepted_sound files pkg m2 r2 mt2 D2) as [o2 [A2 [_ [_ [R2 [M2 _]]]]]].
+  rewrite O1 in A1. inversion A1. subst o1. rewrite O2 in A2. inversion A2. subst o2.
+  repeat split; try assumption.
+  - rewrite R1, R2, E. reflexivity.
+  - intros N K. apply N. congruence.
+Qed.
+
+Example ex_shared_response :
+  let files := [mkFile "a/b.proto" "a.b" [] ["a.b.Book"; "a.b.CreateMeta"; "a.b.UpdateMeta"]] in
+  decide files "a.b" (mkMethod "Create" OPERATION_TYPE (Some (mkOp "Book" "CreateMeta"))) = Lro "a.b.Book" "a.b.CreateMeta" /\
+  decide files "a.b" (mkMethod "Update" OPERATION_TYPE (Some (mkOp "Book" "UpdateMeta"))) = Lro "a.b.Book" "a.b.UpdateMeta".
+Proof. split; reflexivity. Qed.
+
 (* ------------------------------------------------------------------ the future *)
 Definition not_done (o : operation) : Prop := o_done o = false.
 
